@@ -72,7 +72,7 @@ def gen_random(chk, n):
         nconn = r.choice([1, 1, 2, 3])
         mode = 's' if r.random() < 0.2 else 'c'
         nreq = r.randint(1, 8)
-        timeout, wait = 3000, 2500
+        timeout, wait = 5000, 8000
         flush = r.choice([1, 64, 1024])
         script = []
         ids = list(range(1, nreq + 1))
@@ -120,9 +120,9 @@ def gen_break_positions(maxn, strategies):
             for j in range(1, n + 1):
                 specs += ['c,p%d.0' % j, 'c,p%d.5' % j, 'c,g%d' % j, 'c,w%d' % j]
             for sp in specs:
-                cases.append('pipe %s 1 c 3000 2500 1024 %s / %s' % (strat, script, sp))
+                cases.append('pipe %s 1 c 5000 8000 1024 %s / %s' % (strat, script, sp))
             for k in range(0, n + 1):
-                cases.append('pipe %s 1 c 3000 2500 1024 %s / c,x%d,d3*' % (strat, script, k))
+                cases.append('pipe %s 1 c 5000 8000 1024 %s / c,x%d,d3*' % (strat, script, k))
     return cases
 
 
@@ -135,44 +135,92 @@ def gen_backpressure(strategies, maxn=6):
         for n in range(3, maxn + 1):
             script = ' '.join('s%d' % i for i in range(1, n + 1))
             for k in range(0, 4):
-                cases.append('pipe %s 1 c 3000 2500 1024 %s / c,q%d' % (strat, script, k))
-            cases.append('pipe %s 1 c 3000 2500 1024 %s / c,q1,f3' % (strat, script))
-            cases.append('pipe %s 1 c 3000 2500 1024 s1 m2,3,4 %s / c,q2' % (strat, ' '.join('s%d' % i for i in range(5, n + 3))))
-            cases.append('pipe %s 1 c 3000 2500 1024 %s / c,x2,q1 c,q1' % (strat, script))
+                cases.append('pipe %s 1 c 5000 8000 1024 %s / c,q%d' % (strat, script, k))
+            cases.append('pipe %s 1 c 5000 8000 1024 %s / c,q1,f3' % (strat, script))
+            cases.append('pipe %s 1 c 5000 8000 1024 s1 m2,3,4 %s / c,q2' % (strat, ' '.join('s%d' % i for i in range(5, n + 3))))
+            cases.append('pipe %s 1 c 5000 8000 1024 %s / c,x2,q1 c,q1' % (strat, script))
             for pad, buf in ((9000, 64), (5000, 128), (9000, 4096)):
-                cases.append('pipe %s 1 c 3000 2500 1024 P%d %s / c,b%d' % (strat, pad, script, buf))
-        cases.append('pipe %s 2 c 3000 2500 64 P9000 s1 s2 s3 s4 s5 s6 s7 s8 / c,b64 / c,b128,q1' % strat)
-        cases.append('pipe %s 1 s 3000 2500 1024 P9000 F4096 s1 s2 s3 s4 s5 / c,b64' % strat)
-        cases.append('pipe %s 1 s 3000 2500 1024 s1 s2 s3 s4 s5 / c,q1' % strat)
+                cases.append('pipe %s 1 c 5000 8000 1024 P%d %s / c,b%d' % (strat, pad, script, buf))
+        cases.append('pipe %s 2 c 5000 8000 64 P9000 s1 s2 s3 s4 s5 s6 s7 s8 / c,b64 / c,b128,q1' % strat)
+        cases.append('pipe %s 1 s 5000 8000 1024 P9000 F4096 s1 s2 s3 s4 s5 / c,b64' % strat)
+        cases.append('pipe %s 1 s 5000 8000 1024 s1 s2 s3 s4 s5 / c,q1' % strat)
+    return cases
+
+
+def gen_session_depth(strategies='dfy', depths=(1, 63, 64, 65, 100, 200, 1000)):
+    """session mode (real handle_session over loopback TCP, session_timeout = None): pipelines of the given depths written in ONE
+       client write (and split at a few boundaries with W), made of (a) requests the command handler answers itself at once
+       (L = reply, E = locally generated error; they stand for PING / ECHO / CLUSTER KEYSLOT / unknown command / cluster-not-found),
+       (b) backend-forwarded requests, (c) mixtures: alternating, and a block of 64 local ones followed by forwarded ones.
+       The client then sends a sentinel request and reads until its reply (load-independent wait, 60 s cap)."""
+    cases = []
+    k = 0
+    for n in depths:
+        ids = list(range(1, n + 1))
+        kinds = {
+            'a': ['%s%d' % ('E' if i % 7 == 0 else 'L', i) for i in ids],
+            'b': ['s%d' % i for i in ids],
+            'c1': ['%s%d' % ('L' if i % 2 else 's', i) for i in ids],
+            'c2': ['%s%d' % ('L' if i <= 64 else 's', i) for i in ids],
+        }
+        for kind, toks in kinds.items():
+            if kind == 'c2' and n <= 64: continue
+            variants = [toks]
+            if n >= 63:
+                sp = list(toks)
+                for pos in sorted({10, 64, 65, n - 1}, reverse=True):
+                    if 0 < pos < n: sp.insert(pos, 'W')
+                variants.append(sp)
+            for v in variants:
+                strat = strategies[k % len(strategies)]; k += 1
+                nodes = 'c' if kind == 'a' else ('c / c,l1' if k % 2 else 'c')
+                nconn = 2 if ' / ' in nodes else 1
+                cases.append('pipe %s %d s 5000 8000 1024 %s / %s' % (strat, nconn, ' '.join(v), nodes))
+    return cases
+
+
+def gen_long_pipelines(strategies):
+    """client pipelines longer than the session's batch buffer (SESSION_BATCH_BUF = 64) so that more than 64 replies are
+       outstanding at once: written in one piece, in fragments, and with a backend that answers slowly / breaks once"""
+    cases = []
+    for strat, n in zip(strategies, (100, 130, 200)):
+        script = ' '.join('s%d' % i for i in range(1, n + 1))
+        cases.append('pipe %s 1 s 5000 8000 1024 %s / c,l1' % (strat, script))
+        cases.append('pipe %s 2 s 5000 8000 1024 F97 %s / c / c,x40,d2' % (strat, script))
+        # the whole burst is answered without a backend round trip (node marked failed: every send is refused at once), so
+        # every outstanding reply is ready in the very poll that parsed the burst
+        rest = ' '.join('s%d' % i for i in range(2, n + 2))
+        cases.append('pipe %s 1 s 5000 8000 1024 s1 z60 %s / R*' % (strat, rest))
+        cases.append('pipe %s 1 s 5000 8000 1024 s1 z60 F1500 %s / R*' % (strat, rest))
     return cases
 
 
 CORPUS = [
     # candidate defect 12: accept, let a poll pass, break - every time.  As found: retried for ever, never answered.
-    'pipe d 1 c 3000 2000 1024 s1 / c,x1,d5*',
-    'pipe f 1 c 3000 2000 1024 s1 s2 / c,x1,d5*',
-    'pipe y 1 c 3000 2000 1024 s1 / c,x0,d2*',
-    'pipe d 1 c 3000 2000 1024 s1 s2 s3 / c,x0 c,x0 c,x0 c,x0 c,x0',
-    'pipe d 1 c 3000 2000 1024 s1 s2 s3 / c,x0 c,x0 c,x0',
+    'pipe d 1 c 3000 6000 1024 s1 / c,x1,d5*',
+    'pipe f 1 c 3000 6000 1024 s1 s2 / c,x1,d5*',
+    'pipe y 1 c 3000 6000 1024 s1 / c,x0,d2*',
+    'pipe d 1 c 3000 6000 1024 s1 s2 s3 / c,x0 c,x0 c,x0 c,x0 c,x0',
+    'pipe d 1 c 3000 6000 1024 s1 s2 s3 / c,x0 c,x0 c,x0',
     # partial read then break: the unanswered tasks are re-sent and matched on the next connection
-    'pipe d 1 c 3000 2000 1024 s1 s2 s3 s4 / c,x3,f2',
-    'pipe f 1 c 3000 2000 1024 s1 s2 y s3 / c,x2',
-    'pipe d 2 c 3000 2000 1024 s1 m2,3 s4 s5 / c,p1.3 / c,g2',
-    'pipe y 3 c 3000 2000 64 s1 s2 s3 s4 s5 s6 s7 / c,x1 / c,p1.6,f1 / c,b8,f3',
+    'pipe d 1 c 3000 6000 1024 s1 s2 s3 s4 / c,x3,f2',
+    'pipe f 1 c 3000 6000 1024 s1 s2 y s3 / c,x2',
+    'pipe d 2 c 3000 6000 1024 s1 m2,3 s4 s5 / c,p1.3 / c,g2',
+    'pipe y 3 c 3000 6000 64 s1 s2 s3 s4 s5 s6 s7 / c,x1 / c,p1.6,f1 / c,b8,f3',
     # backend_timeout, connect refused (failed window, refused sends, reconnect), senders dropped
     'pipe d 1 c 100 2000 1024 s1 s2 / c,s1',
-    'pipe d 1 c 3000 2500 1024 s1 z20 s2 z1100 s3 / R',
-    'pipe d 1 c 3000 2500 1024 s1 z5 m2,3 z1100 s4 / R R',
-    'pipe d 1 c 3000 2500 1024 s1 s2 / c,x1 R',
-    'pipe f 1 c 3000 2500 1024 s1 s2 s3 y s4 / c,p2.4,d2 R c',
-    'pipe d 1 c 3000 2000 1024 s1 / c,w1*',
-    'pipe d 1 c 3000 2000 1024 s1 s2 / c,w2 c,w1 c,x1',
-    'pipe d 1 c 3000 1500 1024 s1 s2 y close / c,s0',
-    'pipe f 1 c 3000 1500 1024 s1 s2 z3 close / c,l50',
+    'pipe d 1 c 5000 8000 1024 s1 z20 s2 z1100 s3 / R',
+    'pipe d 1 c 5000 8000 1024 s1 z5 m2,3 z1100 s4 / R R',
+    'pipe d 1 c 5000 8000 1024 s1 s2 / c,x1 R',
+    'pipe f 1 c 5000 8000 1024 s1 s2 s3 y s4 / c,p2.4,d2 R c',
+    'pipe d 1 c 3000 6000 1024 s1 / c,w1*',
+    'pipe d 1 c 3000 6000 1024 s1 s2 / c,w2 c,w1 c,x1',
+    'pipe d 1 c 3000 4000 1024 s1 s2 y close / c,s0',
+    'pipe f 1 c 3000 4000 1024 s1 s2 z3 close / c,l50',
     # session mode: fragmented client pipeline, reply order
-    'pipe d 1 s 3000 2000 1024 F7 s1 s2 s3 s4 / c,x3,f2',
-    'pipe f 2 s 3000 2000 1024 F3 s1 s2 s3 s4 s5 s6 / c,l3 / c',
-    'pipe d 2 s 3000 2000 1024 s1 s2 s3 s4 / c,x1,d4* / c',
+    'pipe d 1 s 3000 6000 1024 F7 s1 s2 s3 s4 / c,x3,f2',
+    'pipe f 2 s 3000 6000 1024 F3 s1 s2 s3 s4 s5 s6 / c,l3 / c',
+    'pipe d 2 s 3000 6000 1024 s1 s2 s3 s4 / c,x1,d4* / c',
     # ReqTask::set_result
     'fan 1,2,3 multi3', 'fan 1,2,3 multi2', 'fan 1,2 multi3', 'fan 1,2 err', 'fan 1,2 single', 'fan - multi0', 'fan 1 multi1',
 ]
@@ -231,14 +279,16 @@ def monitor(case, out):
         return 'harness failure: %s' % out[:200]
     evs, comp, client, sess = p
     script = toks[7:toks.index('/')] if '/' in toks else toks[7:]
-    ids = []
+    ids, local = [], set()
     for t in script:
         if t.startswith('s') and t[1:].isdigit(): ids.append(int(t[1:]))
+        elif t[0] in 'LE' and t[1:].isdigit(): ids.append(int(t[1:])); local.add(int(t[1:]))
         elif t.startswith('m'): ids += [int(x) for x in t[1:].split(',')]
     # exactly once: every submitted id has one entry; silence is the absence of a completion within the bounded wait
     if sorted(comp) != sorted(ids):
         return 'completions %r do not cover the submitted ids %r exactly once' % (sorted(comp), sorted(ids))
     tables = conn_tables(evs)
+    truncated = any('truncated' in l for l in evs.values())   # harness log cap reached: the trace is a prefix only
     for i, o in sorted(comp.items()):
         if o == 'silent':
             nfail = sum(1 for conns in tables.values() for (w, _) in conns if i in w)
@@ -248,6 +298,11 @@ def monitor(case, out):
             r = o[3:]
             if not r.isdigit() or int(r) // 100000 != i:
                 return 'request %d received the reply %s elicited by another request' % (i, r)
+            if i in local:
+                # answered by the session's command handler itself: payload id*100000 (reply) or id*100000+99999 (local error)
+                if int(r) % 100000 not in (0, 99999): return 'locally answered request %d got the backend reply %s' % (i, r)
+                continue
+            if truncated: continue
             c = int(r) % 100000
             # own exchange: r was read at position k of connection c of some node, where request i was the k-th written, and c is the last connection i was written on
             ok = False
@@ -303,6 +358,8 @@ def run(chk):
     cases = list(CORPUS)
     cases += gen_break_positions(3 if quick else 8, 'dfy' if quick else 'dfy')
     cases += gen_backpressure('dfy', 6 if quick else 8)
+    cases += gen_long_pipelines('dfy')
+    cases += gen_session_depth()
     cases += gen_random(chk, 500 if quick else 12000)
     rc1, impl = chk.run_impl('pipe', cases, timeout=3000, jobs=8)
     if len(impl) != len(cases):
@@ -338,6 +395,10 @@ def run(chk):
         if bad:
             nfail += 1
             chk.violation({'kind': 'monitor', 'case': c, 'impl': o[:4000], 'model': m[:2000], 'what': bad})
+        elif t[0] == 'pipe' and ':truncated' in o:
+            hist['truncated_traces'] = hist.get('truncated_traces', 0) + 1     # prefix accepted or not, completions not comparable
+            if not (m.startswith('accept') or 'phase' in m):
+                disagreements.append({'case': c, 'impl': o[:4000], 'model': m[:2000]})
         elif t[0] == 'pipe' and (not m.startswith('accept') or tail(o) != tail(m)):
             disagreements.append({'case': c, 'impl': o[:4000], 'model': m[:2000]})
         elif t[0] == 'fan' and o != m:
@@ -345,7 +406,7 @@ def run(chk):
         if i % 131 == 0: chk.sample({'case': c, 'impl': o[:600], 'model': m[:300]})
     chk.cov['traces_validated_against_impl'] = len(cases) - len(disagreements) - nfail
     chk.sub('distribution', cases=len(cases), **hist)
-    chk.sub('monitors', exactly_once_and_id_matching=True, error_not_silence_bounded_wait_ms=2500, client_order_cases=hist['mode_s'],
+    chk.sub('monitors', exactly_once_and_id_matching=True, error_not_silence_bounded_wait_ms=8000, client_order_cases=hist['mode_s'],
             monitor_failures=nfail, disagreements=len(disagreements))
     chk.sub('client_side', how='mode s: the real handle_session over a loopback TcpStream (client writes its pipeline in fragments); '
                                'mode c: CmdCtx reply futures only', session_cases_run=session_ok)
